@@ -55,6 +55,28 @@ def check(rep, ctx):
             rep.check(R_B, "unchecked-used" not in detail and "size=None" not in detail, construct=fn, stmt=stmt_at(ctx, site),
                       message=f"raw read whose bytes are used without comparing their length with the requested size ({detail})",
                       instance=f"{site}|{detail}", **where)
+    # every syntactic read of the decode modules is covered by the path analysis as a checked read
+    R_S = rep.rule("C06-b-sites", "every read call written in the decode modules is reached by the path analysis and is length-checked there", floor=1)
+    status = {}
+    for d, kind, skind, site, detail, n in eng["effects"]:
+        if kind == "read":
+            status.setdefault(site, set()).add(detail)
+    for r in scan.raw_read_sites(ctx, ["kio.serial.readers", "kio.serial._parse", "kio.serial._introspect", "kio.serial._implicit_defaults"]):
+        st_ = status.get(r["site"])
+        if st_ is None and not r["referenced"]:
+            rep.note(f"{r['site']}: read in a function nothing refers to (dead code), not on a decode path")
+            continue
+        ok = st_ is not None and not any("unchecked-used" in x or "size=None" in x for x in st_) and r["method"] == "read"
+        why = ("is never reached by the path analysis of any reader (it cannot be shown to be length-checked)" if st_ is None
+               else f"uses {r['method']}()" if r["method"] != "read" else f"is used unchecked ({sorted(st_)})")
+        rep.check(R_S, ok, construct=r["function"], stmt=r["stmt"], message=f"the read `{r['stmt']}` {why}: a short result is not turned into "
+                  f"BufferUnderflow", file=r["file"], line=r["line"])
+    R_LOOP = rep.rule("C06-e-loops", "a loop that reads from the stream leaves the loop when a read comes back empty or short", floor=0)
+    for l in scan.unbounded_read_loops(ctx, ["kio.serial.readers", "kio.serial._parse", "kio.records.readers"]):
+        rep.check(R_LOOP, False, construct=l["function"], stmt=l["stmt"],
+                  message="the loop keeps reading until it has enough bytes but never tests the chunk it got: at end of stream read() returns b'' "
+                          "forever and the decoder spins instead of raising BufferUnderflow", file=l["file"], line=l["line"])
+    rep.count(R_LOOP, 1, instance="scan")
     xr = [a for a in eng["atoms"] if a["kind"] == "xread"]
     if not xr:
         rep.check(R_B, False, construct="kio.serial.readers", stmt="no checked exact read found",
